@@ -274,6 +274,9 @@ factory!(T16W2, Toy<U16, U2>, "toy", ige = yes, ctr32 = yes, ctr64 = yes, ctr128
 factory!(T16W3, Toy<U16, U3>, "toy", ige = yes, ctr32 = yes, ctr64 = yes, ctr128 = yes, belt = yes);
 factory!(T16W4, Toy<U16, U4>, "toy", ige = yes, ctr32 = yes, ctr64 = yes, ctr128 = yes, belt = yes);
 factory!(T16W8, Toy<U16, U8>, "toy", ige = yes, ctr32 = yes, ctr64 = yes, ctr128 = yes, belt = yes);
+factory!(T16W16, Toy<U16, U16>, "toy", ige = yes, ctr32 = yes, ctr64 = yes, ctr128 = yes, belt = yes);
+factory!(T16W32, Toy<U16, U32>, "toy", ige = yes, ctr32 = yes, ctr64 = yes, ctr128 = yes, belt = yes);
+factory!(T64W6, Toy<U64, U6>, "toy", ige = yes, ctr32 = yes, ctr64 = yes, ctr128 = yes, belt = no);
 factory!(T24W2, Toy<U24, U2>, "toy", ige = yes, ctr32 = yes, ctr64 = yes, ctr128 = no, belt = no);
 factory!(T32W3, Toy<U32, U3>, "toy", ige = yes, ctr32 = yes, ctr64 = yes, ctr128 = yes, belt = no);
 factory!(T48W2, Toy<U48, U2>, "toy", ige = yes, ctr32 = yes, ctr64 = yes, ctr128 = yes, belt = no);
@@ -306,6 +309,9 @@ pub fn all_factories() -> Vec<Box<dyn Factory>> {
         Box::new(T16W3),
         Box::new(T16W4),
         Box::new(T16W8),
+        Box::new(T16W16),
+        Box::new(T16W32),
+        Box::new(T64W6),
         Box::new(T24W2),
         Box::new(T32W3),
         Box::new(T48W2),
